@@ -437,6 +437,33 @@ class SymStr:
                 elif q and q[-1][0] == "atom" and q[-1][2] == "raw":
                     q[-1] = ("atom", q[-1][1] + ".trim_end", "raw")
                 return [(OK, mk(q), st)]
+            if c in ("core::str::<impl str>::trim_start_matches", "core::str::<impl str>::trim_end_matches", "core::str::<impl str>::trim_matches") and len(args) > 1:
+                pat = I.deref_val(st, args[1])
+                chs = pat[1] if pat[0] == "char" else (concrete(pieces_of(pat)) if pat[0] in ("str", "sstr") and is_concrete(pieces_of(pat)) and len(concrete(pieces_of(pat))) == 1 else None)
+                if chs is not None:
+                    q = list(p0)
+                    if not c.endswith("trim_end_matches"):
+                        while q and q[0][0] == "lit":
+                            t = q[0][1].lstrip(chs)
+                            if t:
+                                q[0] = ("lit", t)
+                                break
+                            q.pop(0)
+                        else:
+                            # free-text atoms may themselves begin with the character
+                            if q and q[0][0] == "atom" and q[0][2] in ("text", "raw"):
+                                q[0] = ("atom", q[0][1] + ".trim_start_matches", q[0][2])
+                    if not c.endswith("trim_start_matches"):
+                        while q and q[-1][0] == "lit":
+                            t = q[-1][1].rstrip(chs)
+                            if t:
+                                q[-1] = ("lit", t)
+                                break
+                            q.pop()
+                        else:
+                            if q and q[-1][0] == "atom" and q[-1][2] in ("text", "raw"):
+                                q[-1] = ("atom", q[-1][1] + ".trim_end_matches", q[-1][2])
+                    return [(OK, mk(q), st)]
             if c == "core::str::<impl str>::trim_start":
                 q = list(p0)
                 if q and q[0][0] == "lit":
